@@ -1,6 +1,9 @@
 package harness
 
-import "time"
+import (
+	"math"
+	"time"
+)
 
 const ms = time.Millisecond
 
@@ -11,12 +14,18 @@ func genCond(r *Rnd, allowEmpty bool) Cond {
 		return c
 	}
 	if r.P(0.5) {
-		for i, n := 0, r.Range(1, 2); i < n; i++ {
+		for i, n := 0, r.Range(1, 3); i < n; i++ {
 			c.Errors = append(c.Errors, pick(r, EA, EB, EC))
 		}
 	}
 	if r.P(0.3) {
 		c.ErrTypes = append(c.ErrTypes, r.Intn(TCount))
+		if r.P(0.3) {
+			c.ErrTypes = append(c.ErrTypes, r.Intn(TCount))
+		}
+	}
+	if len(c.Errors) > 1 || len(c.ErrTypes) > 1 {
+		c.Variadic = r.Bool() // one call listing them all, or one call each
 	}
 	if r.P(0.35) {
 		c.Results = append(c.Results, pick(r, 0, 1, 2, 3))
@@ -93,7 +102,7 @@ func genBreaker(r *Rnd, unit time.Duration) PolicySpec {
 		p.Period = time.Duration(r.Range(20, 200)) * unit
 	case 3:
 		p.RateThr = uint(pick(r, 20, 50, 51, 100))
-		p.ExecThr = uint(r.Range(1, 5))
+		p.ExecThr = uint(r.Range(0, 5))
 		p.Period = time.Duration(r.Range(20, 200)) * unit
 	}
 	if r.P(0.4) {
@@ -106,7 +115,18 @@ func genBreaker(r *Rnd, unit time.Duration) PolicySpec {
 	if r.P(0.2) {
 		p.DelayFn = []D{time.Duration(r.Range(1, 30)) * unit, -1}
 	}
+	if r.P(0.03) {
+		p.Delay = foreverDelay(r)
+	}
 	return p
+}
+
+// foreverDelay is a breaker delay meaning "stay open until closed by hand":
+// longer than any run, and large enough that adding it to a wall clock reading
+// leaves the range of a 64 bit nanosecond count.
+func foreverDelay(r *Rnd) time.Duration {
+	const year = 365 * 24 * time.Hour
+	return pick(r, time.Duration(math.MaxInt64), time.Duration(math.MaxInt64), 280*year, 270*year, 100*year)
 }
 
 func genLimiter(r *Rnd, unit time.Duration) PolicySpec {
